@@ -114,6 +114,14 @@ def main():
         if c.error or c.wiring is None:
             if c.rec is not None and c.rec.get("deadlock"):
                 cov.notes.append("%s: recording run hangs (reported under C03)" % c.key())
+                # the recording run feeds streams of EQUAL length (this property's domain): an indicator that never completes its
+                # outputs there does not emit n - w values on every output, whatever the wiring looks like
+                got = [o["n"] for o in (c.rec.get("outs") or [])]
+                V.violation({"pipe": c.pipe, "symptom": "never-completes"},
+                            "%s: fed %d-value inputs of equal length the real indicator hangs (Go runtime: all goroutines are asleep) "
+                            "before its outputs are complete%s" % (c.key(), c.rec_len if hasattr(c, "rec_len") else 40,
+                                                                   (": values delivered %s" % got) if got else ""),
+                            {"pipe": c.pipe, "cfg": c.cfg, "cap": c.cap})
             else:
                 machinery.append("%s: %s" % (c.key(), c.error or "no wiring"))
             continue
